@@ -13,7 +13,7 @@ FS_MUTATORS = {
     "tempfile.mkstemp", "tempfile.mkdtemp", "tempfile.NamedTemporaryFile", "tempfile.TemporaryFile",
     "tempfile.TemporaryDirectory",
 }
-PATHLIB_MUTATING_METHODS = {"unlink", "rmdir", "rename", "replace", "write_text", "write_bytes", "mkdir", "touch",
+PATHLIB_MUTATING_METHODS = {"unlink", "rmdir", "rename", "write_text", "write_bytes", "mkdir", "touch",
                             "chmod", "symlink_to", "hardlink_to", "link_to"}
 DYNAMIC = {"eval", "exec", "__import__", "compile", "os.system", "os.popen", "os.execv", "os.execl", "os.execvp",
            "os.spawnl", "os.spawnv", "os.fork", "subprocess.run", "subprocess.call", "subprocess.check_call",
